@@ -76,6 +76,26 @@ def main(tier):
                 ms = sched.model_schedule(executed, lines)
                 reqs.append('(threads new %d (%s))' % (nth, ' '.join(str(t) for t in ms)))
                 impl.append(' '.join(letters))
+        # lookups of other values racing with a promotion
+        nmix = 0
+        mixs = sched.bounded_schedules(2, 10 if tier == 'quick' else 16, 2)
+        if tier == 'quick':
+            r.shuffle(mixs)
+            mixs = mixs[:700]
+        for s in mixs + [[r.randrange(3) for _ in range(r.randint(5, 60))] for _ in range(150 if tier == 'quick' else 3000)]:
+            nth = 3 if 2 in s else 2
+            res, ref = sched.run_mixed_promotion(nth, list(s))
+            letters = [outcome_letter(res[i], ref[i]) for i in range(nth)]
+            nmix += 1
+            run.count(1)
+            if any(x != 'P' for x in letters):
+                viol += 1
+                if viol <= 3:
+                    run.violation({'kind': 'mixed-promotion', 'threads': nth, 'schedule': s, 'outcomes': letters,
+                                   'detail': 'one thread promotes a lazily registered printer while the others look up '
+                                             'printers for other values: a thread raised or returned another text',
+                                   'results': [str(x)[:200] for x in res], 'expected': ref})
+        run.coverage['mixed_promotion_schedules'] = nmix
         # threads printing values that share sub-objects: the cycle-detection state is per call
         nshared = 0
         sh_cases = []
@@ -170,7 +190,8 @@ def main(tier):
             'random interleavings with up to 5 context switches. Oracle: every thread returns exactly the sequential '
             'text, no exception, no warning. For runs on the class itself the recorded line order is projected on the '
             "model's steps and the extracted interleaving model is run on that schedule; outcomes compared. "
-            'Also (oracle only): 2-3 threads printing values that SHARE sub-objects, gated on the line events of '
+            'Also (oracle only): one thread promoting a lazily registered printer while 1-2 others print an exception / an '
+            'instance of a subclass of a built-in type (bounded and random schedules over the same lines); 2-3 threads printing values that SHARE sub-objects, gated on the line events of '
             '_run_pretty (where visits start and end): every single-preemption schedule up to 70 (thorough: 140) lines '
             'and seeded random interleavings; same or different widths per thread; 2-3 threads laying out different values, '
             'gated on the line events of best_layout and both fitting predicates (seeded random interleavings, runs of '
@@ -186,6 +207,11 @@ def replay(path):
     if 'schedule' not in p:
         print(json.dumps(p, indent=1)[:3000])
         return 1
+    if p.get('kind') == 'mixed-promotion':
+        res, ref = sched.run_mixed_promotion(p['threads'], p['schedule'])
+        letters = [outcome_letter(res[i], ref[i]) for i in range(p['threads'])]
+        print(letters, [str(x)[:150] for x in res])
+        return 0 if all(x == 'P' for x in letters) else 1
     if p.get('kind') == 'all-lines':
         res, ref = sched.run_all_lines(p['threads'], p['schedule'], p['widths'])
         letters = [outcome_letter(res[i], ref[i]) for i in range(p['threads'])]
